@@ -103,3 +103,7 @@ Definition fc_model_matches (x : full_case) : bool :=
 (* the model's universe is the exported one *)
 Definition fc_builder_agrees (x : full_case) : bool :=
   let '(_, u, D, pns, _) := x in BuilderCorr.universe_eqb (universe_of D (pns_of_list pns)) u.
+
+(* inside the guard of theorem C03b_eventgen_matches_metadata (the oracle's guard plus: no sequence groups) *)
+Definition fc_in_theorem_guard (x : full_case) : bool :=
+  let '(_, _, D, _, _) := x in fc_in_guard x && no_sequences D.
